@@ -2066,8 +2066,14 @@ func (ls *LState) Resume(th *LState, fn *LFunction, args ...LValue) (ResumeState
 		}
 		return ResumeOK, nil, ret
 	}
+	// a thread made by coroutine.create or coroutine.wrap has the frame of its body already: like a
+	// started thread it ignores fn
+	hasbody := isstarted || !th.stack.IsEmpty()
+	if !hasbody && fn == nil {
+		return ResumeError, newApiErrorS(ApiErrorRun, "can not resume a new thread without a function"), nil
+	}
 	// the frame of the body is pushed after the checks above, so that a refused resume leaves nothing behind
-	if !isstarted {
+	if !hasbody {
 		base := 0
 		th.stack.Push(callFrame{
 			Fn:         fn,
@@ -2082,7 +2088,7 @@ func (ls *LState) Resume(th *LState, fn *LFunction, args ...LValue) (ResumeState
 		})
 	}
 	if !resumeFits(th, len(args)) {
-		if !isstarted {
+		if !hasbody {
 			th.stack.Pop()
 		}
 		return ResumeError, newApiErrorS(ApiErrorRun, "too many arguments to resume"), nil
